@@ -338,7 +338,15 @@ def reload_overflow_case(n):
     ops = [{"kind": "insert", "host": "h%d.test" % i, "qtype": 1, "scope": "", "ips": ["10.9.8.%d" % (1 + i % 16)], "ttl": 300}
            for i in range(n)]
     ops.append({"kind": "reload"})
-    return {"bitmaps": bm, "bitmaps2": bm, "max_cache_size": 0, "quiet": True, "ops": ops}
+    # hold_worker: the re-sync worker is parked at its first kernel write (a slow write) until RestoreReloadCache
+    # has offered every entry to the queue - whether the queue overflows does not depend on the worker's speed
+    return {"bitmaps": bm, "bitmaps2": bm, "max_cache_size": 0, "quiet": True, "hold_worker": True, "ops": ops}
+
+
+def bpf_update_queue_size():
+    """const bpfUpdateQueueSize in startBpfUpdateWorker (control/dns_control.go)"""
+    m = re.search(r"const\s+bpfUpdateQueueSize\s*=\s*(\d+)", open(os.path.join(vlib.REPO, "control", "dns_control.go")).read())
+    return int(m.group(1)) if m else BPF_UPDATE_QUEUE_SIZE
 
 
 def extract_replay_filter():
@@ -924,7 +932,8 @@ def _main_rest(args, out, rng, n_cases, wait_proofs, sc, built, sync_info):
             ctl_first["res"] = run_ctl_all(ctl_cases, "c")
         except Exception as ex:  # reported as a broken correspondence below
             ctl_first["res"] = ([], "controller stream crashed: %r" % (ex,))
-    probe_cases = [reload_overflow_case(900), reload_overflow_case(3000)]
+    qsize = bpf_update_queue_size()
+    probe_cases = [reload_overflow_case(max(qsize - 124, 1)), reload_overflow_case(qsize + 300)]
     probe = {}
 
     def _probe():
